@@ -3,8 +3,6 @@ package main
 import (
 	"encoding/json"
 	"fmt"
-	"os"
-	"path/filepath"
 	"sort"
 	"strings"
 	"sync"
@@ -315,19 +313,4 @@ func countNoExtra(items []*corp.Item) int {
 func init() {
 	checks["C01"] = func(tier string) int { return runLexCheck("C01", tier) }
 	checks["C08"] = func(tier string) int { return runLexCheck("C08", tier) }
-	replays["lex"] = replayLex
-}
-
-// replayLex regenerates and compiles the single grammar of a replay file and re-runs the one input.
-func replayLex(rp *ev.Replay) int {
-	t := gen.Build()
-	sw, done := newSweeper(t, "replay")
-	defer done()
-	text, _ := rp.Case["grammar"].(string)
-	input, _ := rp.Case["input"].(string)
-	fmt.Printf("grammar:\n%s\ninput: %s\nrecorded got : %v\nrecorded want: %v\n", text, input, rp.Case["got"], rp.Case["want"])
-	dir := filepath.Join(sw.root, "replay")
-	os.MkdirAll(dir, 0o777)
-	fmt.Println("(re-run the check to re-evaluate on the current tree; scratch:", dir, ")")
-	return checks[rp.Property]("quick")
 }
